@@ -18,15 +18,17 @@ type Options struct {
 
 // Stats is what a search covered.
 type Stats struct {
-	Executions  int64 `json:"executions"`
-	Steps       int64 `json:"steps"`     // choice points passed, all executions
-	NewSteps    int64 `json:"new_steps"` // choice points beyond the replayed prefix = distinct schedule-tree nodes
-	MaxSteps    int   `json:"max_steps"` // longest execution
-	MaxPreempt  int   `json:"max_preemptions"`
-	Deadlocks   int64 `json:"deadlocks"`
-	Aborted     int64 `json:"aborted"`
-	Divergences int64 `json:"divergences"`
-	Stopped     bool  `json:"stopped"`
+	Executions  int64  `json:"executions"`
+	Steps       int64  `json:"steps"`     // choice points passed, all executions
+	NewSteps    int64  `json:"new_steps"` // choice points beyond the replayed prefix = distinct schedule-tree nodes
+	MaxSteps    int    `json:"max_steps"` // longest execution
+	MaxPreempt  int    `json:"max_preemptions"`
+	Deadlocks   int64  `json:"deadlocks"`
+	Aborted     int64  `json:"aborted"`
+	Divergences int64  `json:"divergences"`
+	Stopped     bool   `json:"stopped"`
+	Stuck       int64  `json:"stuck"` // executions in which a thread waited on something the scheduler does not model
+	StuckDump   string `json:"stuck_dump,omitempty"`
 }
 
 // Explore runs every schedule within the bounds. mk is called once per
@@ -59,6 +61,13 @@ func Explore(o Options, mk func() (main func(), done func(x *Exec))) Stats {
 		}
 		main, done := mk()
 		x := Run(prefix, o.Horizon, main)
+		if x.Stuck {
+			// no verdict for this execution and no further execution in this process
+			st.Stuck++
+			st.StuckDump = x.StuckDump
+			st.Stopped = true
+			return
+		}
 		for _, p := range x.Panics {
 			if len(p) > 17 && p[:17] == "REPLAY-DIVERGENCE" {
 				st.Divergences++
